@@ -13,6 +13,7 @@ for c in m['checks']:
     jsonschema.validate(e, json.load(open('/root/.vp/EVIDENCE.schema.json')))
     cov=e['coverage']
     assert cov['obligations']==cov['discharged'], (c['property_id'], cov['obligations'], cov['discharged'])
+    assert e['level']==c['level_claimed']['category'], (c['property_id'], e['level'])
     assert e.get('violations',0)==0
 print('manifest and evidence valid')
 PY
